@@ -24,4 +24,4 @@ cls=$(echo "$res" | grep -m1 "class=" | sed 's/^ *//' | cut -c1-220)
 case $rc in 1) c=CAUGHT ;; 0) c=MISSED ;; *) c="INCONCLUSIVE($rc)"; cls=$(echo "$res" | tail -2 | tr '\n' ' ' | cut -c1-200) ;; esac
 echo "SEED $id/$x suite=$suite demo_clean=$demo_clean demo_patched=$demo_patched check=$c :: $cls"
 rm -rf "$d"
-tag=$(printf %s "$d" | sha256sum | cut -c1-8); rm -rf /verif/work/$id.$tag; rm -f /verif/bin/*.$tag.test /verif/bin/*.$tag.race.test /verif/work/alt.$tag.mod /verif/work/alt.$tag.sum 2>/dev/null
+tag=$(printf %s "$d" | sha256sum | cut -c1-8); rm -rf /verif/work/$id.$tag; rm -f /verif/bin/*.$tag.test /verif/bin/*.$tag.race.test /verif/bin/*.$tag.386.test /verif/work/alt.$tag.mod /verif/work/alt.$tag.sum 2>/dev/null
